@@ -125,21 +125,24 @@ CHECKS = {
                   "objects, for every (nested) configuration, scheme symbolic",
         text="On every path the predicate answers a bool without failing; complete data is never refused; declared-relevant implies a "
              "well-formed consensus on incomplete data; Borda / PickAPerm / BioConsert started from them refuse exactly when they "
-             "declared the scheme not relevant.",
+             "declared the scheme not relevant. A conformance step (not solver-decided) runs every configuration with the JIT on for "
+             "schemes written with ints / floats / both.",
         design="4/C14"),
     "C15": dict(
         technique="fork-mode execution monitor: canonical snapshots of Dataset / ScoringScheme around every operation of enumerated "
                   "operation sequences, shared objects vs fresh copies with pinned nondeterminism; solver decides path feasibility and "
                   "score equalities",
         text="For sampled datasets (n<=3) and every single operation plus sampled ordered pairs of operations on shared objects: inputs "
-             "unchanged after every operation, same consensus on fresh copies, deterministic algorithms repeatable. Mostly structural "
+             "unchanged after every operation, same consensus on fresh copies, deterministic algorithms repeatable, user-built Consensus "
+             "objects scored in sequence get the definition score. Mostly structural "
              "per path (declared), scheme symbolic.",
         design="4/C15"),
     "C16": dict(
         technique="fork-mode differential execution of Dataset mutators against a reference model over enumerated histories, removal "
                   "sets forked, presence-rate threshold a symbolic real decided by z3",
         text="After construction and after every step of every history of <=2 (thorough 3) mutator calls all views (buckets, positions, "
-             "domains, id maps, types, flags, matrices, unified rankings/dataset, all projections) equal the model; for the rate filter "
+             "domains, id maps, types, flags, matrices, unified rankings/dataset, all projections) equal the model, also after a refused "
+             "(nothing would remain) call; for the rate filter "
              "the solver proves 'removed <=> presence/m < t' over each path's threshold region.",
         design="4/C16"),
     "C18": dict(
